@@ -4,6 +4,7 @@
 // build tag off it is not part of the package, with it on it adds nothing to the build.
 package keeper
 
+//@ import strings "strings"
 //@ import sdk "github.com/cosmos/cosmos-sdk/types"
 //@ import context "context"
 //@ import codec "github.com/cosmos/cosmos-sdk/codec"
@@ -12,7 +13,7 @@ package keeper
 
 // ---------------------------------------------------------------------------------------------
 // Abstract view. The proof store of a layer is the KV store of the module's store key seen through that layer
-// (prelude/41_misc_store.spec); the proof of an account with address bytes a lives under vauthProofKey(a) = 0x01 ++ a:
+// (prelude/42_cpc_store.spec); the proof of an account with address bytes a lives under vauthProofKey(a) = 0x01 ++ a:
 //     proven(l, a)   ==  kvHas[vauthStore][vauthProofKey(a)]
 //     record(l, a)   ==  kvVal[vauthStore][vauthProofKey(a)]  ==  vauthProofEnc(account, hash, signature)
 // vauthProofKey is injective (bcat_split), so distinct accounts have distinct entries and a statement about the raw
@@ -32,10 +33,11 @@ package keeper
 // three string fields); MustUnmarshal overwrites the target and panics on malformed input.
 //@ func (c codec.BinaryCodec) MustMarshal(o proto.Message) (bz []byte)
 //@   assumed
+//@   requires typeof(o) == type(*vauthtypes.ProofExternalOwnedAccount)
 //@   modifies nothing
 //@   ensures base(bz) != 0 && fresh(base(bz))
 //@   ensures typeof(o) == type(*vauthtypes.ProofExternalOwnedAccount) ==> bytes(bz) == vauthProofEnc(unbox(o, type(*vauthtypes.ProofExternalOwnedAccount)).Account, unbox(o, type(*vauthtypes.ProofExternalOwnedAccount)).Hash, unbox(o, type(*vauthtypes.ProofExternalOwnedAccount)).Signature)
-//@   panics only_if typeof(o) != type(*vauthtypes.ProofExternalOwnedAccount)
+//@   panics never
 //@ func (c codec.BinaryCodec) MustUnmarshal(bz []byte, ptr proto.Message)
 //@   assumed
 //@   requires typeof(ptr) == type(*vauthtypes.ProofExternalOwnedAccount)
@@ -49,26 +51,26 @@ package keeper
 //@ ghost func vauthSigChecked(account string, sig string) bool = bech32Valid(account) && vauthSigText(sig) && sigRecovers(hexDec(vauthSigHex(sig)), vauthtypes.MessageToSign) && vauthSigMatches(account, sig) && (blen(bech32Bytes(account)) == 20 ==> vauthSigBinds(account, sig))
 
 //@ func (k Keeper) HasProofExternalOwnedAccount(ctx sdk.Context, accAddr sdk.AccAddress) bool
-//@   requires storeMounted(payload(k.storeKey)) && len(accAddr) <= 255
+//@   requires len(accAddr) <= 255
 //@   modifies nothing
-//@   ensures[C16.has_is_presence] result == kvHas[kvStoreId(layer(ctx), payload(k.storeKey))][vauthProofKey(bytes(accAddr))]
+//@   ensures[C16.has_is_presence] result == kvHas[kvId(layer(ctx), payload(k.storeKey))][vauthProofKey(bytes(accAddr))]
 //@   panics never
 
 //@ func (k Keeper) GetProofExternalOwnedAccount(ctx sdk.Context, accAddr sdk.AccAddress) (p *vauthtypes.ProofExternalOwnedAccount)
-//@   requires storeMounted(payload(k.storeKey)) && k.cdc != nil && len(accAddr) <= 255
+//@   requires k.cdc != nil && len(accAddr) <= 255
 //@   modifies nothing
-//@   ensures[C16.get_absent] !kvHas[kvStoreId(layer(ctx), payload(k.storeKey))][vauthProofKey(bytes(accAddr))] ==> p == nil
-//@   ensures[C16.get_decodes] p != nil ==> (kvHas[kvStoreId(layer(ctx), payload(k.storeKey))][vauthProofKey(bytes(accAddr))] && fresh(p) && p.Account == vauthProofDecAccount(kvVal[kvStoreId(layer(ctx), payload(k.storeKey))][vauthProofKey(bytes(accAddr))]) && p.Hash == vauthProofDecHash(kvVal[kvStoreId(layer(ctx), payload(k.storeKey))][vauthProofKey(bytes(accAddr))]) && p.Signature == vauthProofDecSignature(kvVal[kvStoreId(layer(ctx), payload(k.storeKey))][vauthProofKey(bytes(accAddr))]))
+//@   ensures[C16.get_absent] !kvHas[kvId(layer(ctx), payload(k.storeKey))][vauthProofKey(bytes(accAddr))] ==> p == nil
+//@   ensures[C16.get_decodes] p != nil ==> (kvHas[kvId(layer(ctx), payload(k.storeKey))][vauthProofKey(bytes(accAddr))] && fresh(p) && p.Account == vauthProofDecAccount(kvVal[kvId(layer(ctx), payload(k.storeKey))][vauthProofKey(bytes(accAddr))]) && p.Hash == vauthProofDecHash(kvVal[kvId(layer(ctx), payload(k.storeKey))][vauthProofKey(bytes(accAddr))]) && p.Signature == vauthProofDecSignature(kvVal[kvId(layer(ctx), payload(k.storeKey))][vauthProofKey(bytes(accAddr))]))
 //@   panics any
 
 // The only writer of the proof store.
 //@ func (k Keeper) SaveProofExternalOwnedAccount(ctx sdk.Context, proof vauthtypes.ProofExternalOwnedAccount) (err error)
-//@   requires storeMounted(payload(k.storeKey)) && k.cdc != nil
-//@   modifies kvHas[kvStoreId(layer(ctx), payload(k.storeKey))], kvVal[kvStoreId(layer(ctx), payload(k.storeKey))]
+//@   requires k.cdc != nil
+//@   modifies kvHas[kvId(layer(ctx), payload(k.storeKey))], kvVal[kvId(layer(ctx), payload(k.storeKey))]
 //@   ensures[C16.save_iff_valid] (err == nil) == vauthProofValid(proof.Account, proof.Hash, proof.Signature)
 //@   ensures[C16.save_only_checked] err == nil ==> vauthSigChecked(proof.Account, proof.Signature)
-//@   ensures[C16.save_effect] err == nil ==> (kvHas[kvStoreId(layer(ctx), payload(k.storeKey))] == old(kvHas[kvStoreId(layer(ctx), payload(k.storeKey))])[vauthProofKey(bech32Bytes(proof.Account)) := true] && kvVal[kvStoreId(layer(ctx), payload(k.storeKey))] == old(kvVal[kvStoreId(layer(ctx), payload(k.storeKey))])[vauthProofKey(bech32Bytes(proof.Account)) := vauthProofEnc(proof.Account, proof.Hash, proof.Signature)])
-//@   ensures[C16.save_reject_clean] err != nil ==> (kvHas[kvStoreId(layer(ctx), payload(k.storeKey))] == old(kvHas[kvStoreId(layer(ctx), payload(k.storeKey))]) && kvVal[kvStoreId(layer(ctx), payload(k.storeKey))] == old(kvVal[kvStoreId(layer(ctx), payload(k.storeKey))]))
+//@   ensures[C16.save_effect] err == nil ==> (kvHas[kvId(layer(ctx), payload(k.storeKey))] == old(kvHas[kvId(layer(ctx), payload(k.storeKey))])[vauthProofKey(bech32Bytes(proof.Account)) := true] && kvVal[kvId(layer(ctx), payload(k.storeKey))] == old(kvVal[kvId(layer(ctx), payload(k.storeKey))])[vauthProofKey(bech32Bytes(proof.Account)) := vauthProofEnc(proof.Account, proof.Hash, proof.Signature)])
+//@   ensures[C16.save_reject_clean] err != nil ==> (kvHas[kvId(layer(ctx), payload(k.storeKey))] == old(kvHas[kvId(layer(ctx), payload(k.storeKey))]) && kvVal[kvId(layer(ctx), payload(k.storeKey))] == old(kvVal[kvId(layer(ctx), payload(k.storeKey))]))
 //@   panics[C16.save_panics] only_if blen(vauthProofEnc(proof.Account, proof.Hash, proof.Signature)) > 2147483647
 
 // ---------------------------------------------------------------------------------------------
@@ -85,19 +87,19 @@ package keeper
 
 //@ func (m msgServer) SubmitProofExternalOwnedAccount(goCtx context.Context, msg *vauthtypes.MsgSubmitProofExternalOwnedAccount) (res *vauthtypes.MsgSubmitProofExternalOwnedAccountResponse, err error)
 //@   requires typeof(goCtx) == type(sdk.Context) && msg != nil
-//@   requires storeMounted(payload(m.Keeper.storeKey)) && m.Keeper.cdc != nil && m.Keeper.bankKeeper != nil
-//@   modifies kvHas[kvStoreId(layer(unbox(goCtx, type(sdk.Context))), payload(m.Keeper.storeKey))], kvVal[kvStoreId(layer(unbox(goCtx, type(sdk.Context))), payload(m.Keeper.storeKey))], bankBal[layer(unbox(goCtx, type(sdk.Context)))], bankSupply[layer(unbox(goCtx, type(sdk.Context)))], authVersion[layer(unbox(goCtx, type(sdk.Context)))], evlog[payload(unbox(goCtx, type(sdk.Context)).EventManager())]
+//@   requires m.Keeper.cdc != nil && m.Keeper.bankKeeper != nil
+//@   modifies kvHas[kvId(layer(unbox(goCtx, type(sdk.Context))), payload(m.Keeper.storeKey))], kvVal[kvId(layer(unbox(goCtx, type(sdk.Context))), payload(m.Keeper.storeKey))], bankBal[layer(unbox(goCtx, type(sdk.Context)))], bankSupply[layer(unbox(goCtx, type(sdk.Context)))], authVersion[layer(unbox(goCtx, type(sdk.Context)))], evlog[payload(unbox(goCtx, type(sdk.Context)).EventManager())]
 //@   ensures[C16.submit_requires_valid_msg] err == nil ==> (vauthMsgValid(msg.Submitter, msg.Account, msg.Signature) && vauthSigChecked(msg.Account, msg.Signature))
-//@   ensures[C16.submit_no_overwrite] err == nil ==> !old(kvHas[kvStoreId(layer(unbox(goCtx, type(sdk.Context))), payload(m.Keeper.storeKey))][vauthProofKey(bech32Bytes(msg.Account))])
-//@   ensures[C16.submit_stored] err == nil ==> (kvHas[kvStoreId(layer(unbox(goCtx, type(sdk.Context))), payload(m.Keeper.storeKey))] == old(kvHas[kvStoreId(layer(unbox(goCtx, type(sdk.Context))), payload(m.Keeper.storeKey))])[vauthProofKey(bech32Bytes(msg.Account)) := true] && kvVal[kvStoreId(layer(unbox(goCtx, type(sdk.Context))), payload(m.Keeper.storeKey))] == old(kvVal[kvStoreId(layer(unbox(goCtx, type(sdk.Context))), payload(m.Keeper.storeKey))])[vauthProofKey(bech32Bytes(msg.Account)) := vauthProofEnc(msg.Account, strcat("0x", hexEnc(keccak256(sbytes(vauthtypes.MessageToSign)))), msg.Signature)])
+//@   ensures[C16.submit_no_overwrite] err == nil ==> !old(kvHas[kvId(layer(unbox(goCtx, type(sdk.Context))), payload(m.Keeper.storeKey))][vauthProofKey(bech32Bytes(msg.Account))])
+//@   ensures[C16.submit_stored] err == nil ==> (kvHas[kvId(layer(unbox(goCtx, type(sdk.Context))), payload(m.Keeper.storeKey))] == old(kvHas[kvId(layer(unbox(goCtx, type(sdk.Context))), payload(m.Keeper.storeKey))])[vauthProofKey(bech32Bytes(msg.Account)) := true] && kvVal[kvId(layer(unbox(goCtx, type(sdk.Context))), payload(m.Keeper.storeKey))] == old(kvVal[kvId(layer(unbox(goCtx, type(sdk.Context))), payload(m.Keeper.storeKey))])[vauthProofKey(bech32Bytes(msg.Account)) := vauthProofEnc(msg.Account, strcat("0x", hexEnc(keccak256(strBytes(vauthtypes.MessageToSign)))), msg.Signature)])
 //@   ensures[C16.submit_fee_charged] err == nil ==> (forall a bytes, d string :: bankBal[layer(unbox(goCtx, type(sdk.Context)))][a][d] == old(bankBal[layer(unbox(goCtx, type(sdk.Context)))][a][d]) - ((a == bech32Bytes(msg.Submitter) && d == evmDenomOf[layer(unbox(goCtx, type(sdk.Context)))]) ? vauthFee() : 0))
 //@   ensures[C16.submit_fee_burnt] err == nil ==> (forall d string :: bankSupply[layer(unbox(goCtx, type(sdk.Context)))][d] == old(bankSupply[layer(unbox(goCtx, type(sdk.Context)))][d]) - (d == evmDenomOf[layer(unbox(goCtx, type(sdk.Context)))] ? vauthFee() : 0))
 //@   ensures[C16.submit_fee_affordable] err == nil ==> old(bankBal[layer(unbox(goCtx, type(sdk.Context)))][bech32Bytes(msg.Submitter)][evmDenomOf[layer(unbox(goCtx, type(sdk.Context)))]]) >= vauthFee()
-//@   ensures[C16.reject_stores_nothing] err != nil ==> (kvHas[kvStoreId(layer(unbox(goCtx, type(sdk.Context))), payload(m.Keeper.storeKey))] == old(kvHas[kvStoreId(layer(unbox(goCtx, type(sdk.Context))), payload(m.Keeper.storeKey))]) && kvVal[kvStoreId(layer(unbox(goCtx, type(sdk.Context))), payload(m.Keeper.storeKey))] == old(kvVal[kvStoreId(layer(unbox(goCtx, type(sdk.Context))), payload(m.Keeper.storeKey))]))
+//@   ensures[C16.reject_stores_nothing] err != nil ==> (kvHas[kvId(layer(unbox(goCtx, type(sdk.Context))), payload(m.Keeper.storeKey))] == old(kvHas[kvId(layer(unbox(goCtx, type(sdk.Context))), payload(m.Keeper.storeKey))]) && kvVal[kvId(layer(unbox(goCtx, type(sdk.Context))), payload(m.Keeper.storeKey))] == old(kvVal[kvId(layer(unbox(goCtx, type(sdk.Context))), payload(m.Keeper.storeKey))]))
 //@   ensures[C16.reject_burns_nothing] err != nil ==> bankSupply[layer(unbox(goCtx, type(sdk.Context)))] == old(bankSupply[layer(unbox(goCtx, type(sdk.Context)))])
 //@   ensures[C16.reject_charges_nothing_or_envelope] err != nil ==> (bankBal[layer(unbox(goCtx, type(sdk.Context)))] == old(bankBal[layer(unbox(goCtx, type(sdk.Context)))]) || (forall a bytes, d string :: bankBal[layer(unbox(goCtx, type(sdk.Context)))][a][d] == old(bankBal[layer(unbox(goCtx, type(sdk.Context)))][a][d]) - ((a == bech32Bytes(msg.Submitter) && d == evmDenomOf[layer(unbox(goCtx, type(sdk.Context)))]) ? vauthFee() : 0) + ((a == moduleAddr(vauthtypes.ModuleName) && d == evmDenomOf[layer(unbox(goCtx, type(sdk.Context)))]) ? vauthFee() : 0)))
-//@   ensures[C16.reject_before_bank_on_validation] (!vauthMsgValid(msg.Submitter, msg.Account, msg.Signature) || old(kvHas[kvStoreId(layer(unbox(goCtx, type(sdk.Context))), payload(m.Keeper.storeKey))][vauthProofKey(bech32Bytes(msg.Account))])) ==> (err != nil && bankBal[layer(unbox(goCtx, type(sdk.Context)))] == old(bankBal[layer(unbox(goCtx, type(sdk.Context)))]))
-//@   panics[C16.submit_panics] only_if !modExists(vauthtypes.ModuleName) || !modCanBurn(vauthtypes.ModuleName) || !denomValid(evmDenomOf[layer(unbox(goCtx, type(sdk.Context)))]) || strLower(msg.Signature) != msg.Signature || blen(vauthProofEnc(msg.Account, strcat("0x", hexEnc(keccak256(sbytes(vauthtypes.MessageToSign)))), msg.Signature)) > 2147483647
+//@   ensures[C16.reject_before_bank_on_validation] (!vauthMsgValid(msg.Submitter, msg.Account, msg.Signature) || old(kvHas[kvId(layer(unbox(goCtx, type(sdk.Context))), payload(m.Keeper.storeKey))][vauthProofKey(bech32Bytes(msg.Account))])) ==> (err != nil && bankBal[layer(unbox(goCtx, type(sdk.Context)))] == old(bankBal[layer(unbox(goCtx, type(sdk.Context)))]))
+//@   panics[C16.submit_panics] only_if !modExists(vauthtypes.ModuleName) || !modCanBurn(vauthtypes.ModuleName) || !denomValid(evmDenomOf[layer(unbox(goCtx, type(sdk.Context)))]) || strings.ToLower(msg.Signature) != msg.Signature || blen(vauthProofEnc(msg.Account, strcat("0x", hexEnc(keccak256(strBytes(vauthtypes.MessageToSign)))), msg.Signature)) > 2147483647
 
 // ---------------------------------------------------------------------------------------------
 // grpc_query.go — the query server only reads: together with Has/Get (modifies nothing) this makes
@@ -105,8 +107,8 @@ package keeper
 // SubmitProofExternalOwnedAccount its only caller.
 // ---------------------------------------------------------------------------------------------
 //@ func (q queryServer) ProofExternalOwnedAccount(goCtx context.Context, req *vauthtypes.QueryProofExternalOwnedAccountRequest) (res *vauthtypes.QueryProofExternalOwnedAccountResponse, err error)
-//@   requires typeof(goCtx) == type(sdk.Context) && storeMounted(payload(q.Keeper.storeKey)) && q.Keeper.cdc != nil
+//@   requires typeof(goCtx) == type(sdk.Context) && q.Keeper.cdc != nil
 //@   modifies nothing
-//@   ensures[C16.query_reports_store] (err == nil && bech32Valid(req.Account)) ==> (res != nil && kvHas[kvStoreId(layer(unbox(goCtx, type(sdk.Context))), payload(q.Keeper.storeKey))][vauthProofKey(bech32Bytes(req.Account))] && res.Proof.Signature == vauthProofDecSignature(kvVal[kvStoreId(layer(unbox(goCtx, type(sdk.Context))), payload(q.Keeper.storeKey))][vauthProofKey(bech32Bytes(req.Account))]) && res.Proof.Account == vauthProofDecAccount(kvVal[kvStoreId(layer(unbox(goCtx, type(sdk.Context))), payload(q.Keeper.storeKey))][vauthProofKey(bech32Bytes(req.Account))]))
-//@   ensures[C16.query_absent] (bech32Valid(req.Account) && !kvHas[kvStoreId(layer(unbox(goCtx, type(sdk.Context))), payload(q.Keeper.storeKey))][vauthProofKey(bech32Bytes(req.Account))]) ==> err != nil
+//@   ensures[C16.query_reports_store] (err == nil && bech32Valid(req.Account)) ==> (res != nil && kvHas[kvId(layer(unbox(goCtx, type(sdk.Context))), payload(q.Keeper.storeKey))][vauthProofKey(bech32Bytes(req.Account))] && res.Proof.Signature == vauthProofDecSignature(kvVal[kvId(layer(unbox(goCtx, type(sdk.Context))), payload(q.Keeper.storeKey))][vauthProofKey(bech32Bytes(req.Account))]) && res.Proof.Account == vauthProofDecAccount(kvVal[kvId(layer(unbox(goCtx, type(sdk.Context))), payload(q.Keeper.storeKey))][vauthProofKey(bech32Bytes(req.Account))]))
+//@   ensures[C16.query_absent] (bech32Valid(req.Account) && !kvHas[kvId(layer(unbox(goCtx, type(sdk.Context))), payload(q.Keeper.storeKey))][vauthProofKey(bech32Bytes(req.Account))]) ==> err != nil
 //@   panics any
